@@ -7,9 +7,9 @@ from . import common as C
 RULE = ("each case runs one seeded script containing rebases (plain / --onto / -i reword, 1-3 commits) and cherry-picks (one / range) twice in "
         "fresh worlds: normally, and with GIT_AI_VERIF_DISABLE_FAST_PATH=1 (both shortcuts decline, full replay runs); commit ids coincide (logical "
         "clock). Ranges are drawn so that the shortcut's precondition holds for all pairs (upstream touched other files), for none, and for SOME "
-        "pairs only (upstream touched a file of one commit of the range; a commit of the range without note). For every rewritten commit (from the "
+        "pairs only (upstream touched a file of one commit of the range; a commit of the range without note), and ranges that shrink (a commit of the range is already applied upstream and dropped by the rebase). For every rewritten commit (from the "
         "H-trace notes_add_batch events) the two notes are compared: projected rule (line sets restricted to the lines the commit adds, sessions "
-        "owning such lines, base_commit_sha) on ALL ranges; strict rule (files, sessions, full line sets, prompt ids) is an open "
+        "owning such lines, base_commit_sha) on ALL ranges; a copied note may not list lines that its commit does not add and that the replay does not list either; strict rule (files, sessions, full line sets, prompt ids) is an open "
         "finding (D16: the full replay writes cumulative notes) and only counted while it is open. The H-trace says whether the shortcut was taken; a case in which it never "
         "was is counted but not non-trivial. distinct = (op sequence, shortcut taken/declined pattern)")
 
@@ -21,12 +21,14 @@ def script(sc):
         sc.do_edit()
     sc.commit_all("hist")
     for k in range(rng.choice([1, 2])):
-        op = rng.choice(["rebase", "rebase", "cherry", "partial-range"])
+        op = rng.choice(["rebase", "rebase", "cherry", "partial-range", "dropped-duplicate"])
         sc.commit_all("pre")
         if op == "rebase":
             sc.op_rebase(kind=rng.choice(["plain", "plain", "onto", "interactive"]))
         elif op == "cherry":
             sc.op_cherry_pick(kind=rng.choice(["one", "range"]))
+        elif op == "dropped-duplicate":
+            dropped_duplicate_rebase(sc)
         else:
             partial_precondition_rebase(sc)
         sc.after_step("op %d %s" % (k, op))
@@ -71,6 +73,41 @@ def partial_precondition_rebase(sc):
         sc.g("checkout", "-q", base); sc.g("merge", "-q", "--ff-only", feat)
 
 
+def dropped_duplicate_rebase(sc):
+    """A range that is LONGER than its rewritten image: 2-3 commits on distinct files, the first (or another) of them is also
+    cherry-picked onto the upstream branch, so `git rebase` drops it as already applied and original / rewritten commits no longer
+    pair up positionally."""
+    rng = sc.rng
+    base = sc.current_branch() or "main"
+    feat = sc.new_branch_name("dd")
+    files = [f for f in sc.files if f in sc.tracked()]
+    rng.shuffle(files)
+    n = min(len(files), rng.choice([2, 3, 3]))
+    if n < 2:
+        return sc.op_rebase(kind="plain")
+    sc.g("checkout", "-q", "-b", feat)
+    shas = []
+    for i in range(n):
+        sc.do_edit(author=rng.choice(sc.sessions + ["human"]) if i else rng.choice(sc.sessions), f=files[i], kinds=["ins"])
+        sc.commit_all("dd%d" % i)
+        shas.append(sc.w.ogit("rev-parse", "HEAD").strip())
+    sc.g("checkout", "-q", base)
+    dup = rng.randrange(n - 1)          # never the last one: at least one commit follows the dropped one
+    sc.g("cherry-pick", shas[dup])
+    if sc.in_progress():
+        sc.finish_in_progress("cherry-pick", decide="abort")
+        sc.g("checkout", "-q", "-f", base)
+        return
+    sc.g("checkout", "-q", feat)
+    sc.g("rebase", base)
+    sc.ops.append("rebase:dropped-duplicate@%d/%d" % (dup, n))
+    if sc.in_progress():
+        sc.finish_in_progress("rebase", decide="abort")
+        sc.g("checkout", "-q", "-f", base)
+    else:
+        sc.g("checkout", "-q", base); sc.g("merge", "-q", "--ff-only", feat)
+
+
 def rewritten(sc):
     """[(commit list of one notes_add_batch, shortcut taken?)] from the H-trace."""
     out = []
@@ -101,6 +138,20 @@ def note_views(sc, commit):
                 proj.setdefault(f, {})[h] = x
     projected = (proj, sorted({h for d in proj.values() for h in d}), n.meta.get("base_commit_sha"))
     return strict, projected
+
+
+def extra_lines(sa, pa, sb):
+    if not sa or isinstance(sa[0], str) or not sb or isinstance(sb[0], str):
+        return {} if not (sa and not isinstance(sa[0], str) and sb is None) else {f: d for f, d in sa[0].items()}
+    out = {}
+    for f, d in sa[0].items():
+        for h, ls in d.items():
+            proj = set(((pa[0] if pa else {}).get(f) or {}).get(h) or [])
+            rep = set((sb[0].get(f) or {}).get(h) or [])
+            x = sorted(set(ls) - proj - rep)
+            if x:
+                out.setdefault(f, {})[h] = x
+    return out
 
 
 def run_case(case):
@@ -145,8 +196,13 @@ def run_case(case):
                 sa, pa = note_views(a, c)
                 sb, pb = note_views(b, c)
                 a.stats["rewritten_commits_compared"] += 1
+                extra = extra_lines(sa, pa, sb)
                 if pa != pb:
                     a.violation("C15/projected-notes-differ", commit=c, shortcut=pa, replay=pb)
+                elif extra:
+                    # lines the commit does not add, listed by the shortcut's note but not by the replay's (the replay may list MORE than
+                    # the commit adds - finding D16 - but the copied note may not list anything the replay does not know about)
+                    a.violation("C15/shortcut-note-lists-foreign-lines", commit=c, extra=extra, shortcut=sa, replay=sb)
                 elif sa != sb and strict_ok:
                     a.violation("C15/strict-notes-differ", commit=c, shortcut=sa, replay=sb, range_has_file_touched_twice=multi)
                 elif sa != sb:
